@@ -293,6 +293,8 @@ func retrErrClass(err error) string {
 	switch {
 	case has("injected read failure"):
 		return "db-read"
+	case has("requires -salt") || has("mutually exclusive") || has("must be > 0") || has("unsupported compression codec") || has("unsupported scrub mode"):
+		return "options-invalid"
 	case has("keyset scan ended"):
 		return "scan-short"
 	case has("not strictly increasing"):
